@@ -34,7 +34,7 @@ BUDGET = {'quick': 200, 'thorough': 1500}
 
 
 def shards(tier):
-    n = 2000 if tier == 'quick' else 100000
+    n = 4000 if tier == 'quick' else 100000
     out = [{'kind': 'e1', 'n': n} for _ in range(12)]
     out += partb_shards(tier)
     return out
